@@ -93,6 +93,28 @@ static thread_local run_t t_run;
 static bool g_explicit_calls = false;
 static int g_token = 0;
 
+// C11c directed program `stall=1`: every participant that is not unwinding from a throwing call
+// waits at the point `bulk.dec` (before the log lock is taken), i.e. between whatever finish()
+// did before the decrement and `--tasks_remaining`; the thrower does not wait there, so it records
+// its exception and decrements while the others sit in that window (a perturbation only: no
+// verdict depends on the delays)
+static bool g_stall = false;
+static thread_local bool t_threw = false;
+// rendezvous of the directed program: a participant that did not throw waits at `bulk.dec` until
+// the thrower has decremented; the thrower waits at `bulk.excx` (before its exchange) until the
+// other g_pool_w - 1 participants are waiting.  Both waits are bounded (30 ms): they only steer
+// the schedule, nothing is concluded from them.
+static std::atomic<int> g_waiting{0};
+static std::atomic<bool> g_thrower_done{false};
+static int g_pool_w = 0;
+template <typename P>
+static void bounded_wait(P&& done)
+{
+    auto const end = std::chrono::steady_clock::now() + std::chrono::milliseconds(30);
+    while (!done() && std::chrono::steady_clock::now() < end)
+        std::this_thread::sleep_for(std::chrono::microseconds(50));
+}
+
 static void lock_log()
 {
     while (g_lock.test_and_set(std::memory_order_acquire)) {}
@@ -131,6 +153,17 @@ static void sink(int phase, char const* site, void const* o, std::uint64_t a, st
     // only the hooks of the index queue and of bulk itself (a task does not suspend or migrate
     // between one of their points and the following post; other modules' hooks may)
     if (std::strncmp(site, "ciq.", 4) != 0 && std::strncmp(site, "bulk.", 5) != 0) return;
+    if (phase == 2 && std::strcmp(site, "bulk.task") == 0) t_threw = false;
+    if (phase == 0 && g_stall && !t_held)
+    {
+        if (!t_threw && std::strcmp(site, "bulk.dec") == 0)
+        {
+            g_waiting.fetch_add(1);
+            bounded_wait([] { return g_thrower_done.load(); });
+        }
+        else if (t_threw && std::strcmp(site, "bulk.excx") == 0)
+            bounded_wait([] { return g_waiting.load() >= g_pool_w - 1; });
+    }
     if (phase == 0)
     {
         if (!t_held)
@@ -146,6 +179,8 @@ static void sink(int phase, char const* site, void const* o, std::uint64_t a, st
         append(site, o, (long long) a, (long long) b);
         t_held = false;
         unlock_log();
+        if (g_stall && t_threw && (std::strcmp(site, "bulk.last") == 0 || std::strcmp(site, "bulk.notlast") == 0))
+            g_thrower_done.store(true);
     }
 }
 static void note(char const* site, void const* o, long long a, long long b)
@@ -350,6 +385,7 @@ static void run_live(case_t const& c, ex::thread_pool_scheduler sched)
     int const token = 4711 + int(c.geti("seed", 1) % 1000);
     for (auto t : thr) note("live.throws", nullptr, t, 0);
     // C11c: the predecessor's value pack (token) and whether every call is logged individually
+    g_stall = c.geti("stall", 0) != 0;
     g_token = token;
     g_explicit_calls = nn >= 0 && nn <= 256;
     note("live.tok", nullptr, token, g_explicit_calls ? 1 : 0);
@@ -395,6 +431,7 @@ static void run_live(case_t const& c, ex::thread_pool_scheduler sched)
                         if (t_run.count == 0) t_run.first = ii;
                         ++t_run.count;
                     }
+                    if (t) t_threw = true;
                     if (t) throw idx_error{ii};
                 }) |
             ex::then([&](int v) {
@@ -456,6 +493,7 @@ static int pika_main()
     {
         auto& pool = pika::resource::get_thread_pool(c.geti("pool", 0) == 0 ? "default" : "bulk-pool");
         ex::thread_pool_scheduler sched{&pool};
+        g_pool_w = int(pool.get_os_thread_count());
         std::printf("0 live.pool 0 %lld %lld\n", (long long) pool.get_os_thread_count(), c.geti("pool", 0));
         with_shape(c.geti("S", 2), [&](auto s) { run_live<decltype(s)>(c, sched); });
     }
